@@ -146,7 +146,10 @@ def replay_trace(spec):
         k = (conn, MODEL_SPACE[space], srv)
         largest = model.get(k, -1)
         want = rfc_decode_pn(largest, truncated, 8 * nbytes)
-        got = _call(qs, space, srv, nbytes, truncated)
+        try:
+            got = _call(qs, space, srv, nbytes, truncated)
+        except Exception as e:  # noqa
+            return {"sig": f"history: packet-number reconstruction raises {type(e).__name__}", "detail": f"step {step}: {e} (model largest {largest})", "nontrivial": True}
         if got != want:
             return {"sig": "history: wrong packet number", "detail": f"step {step}: got {got} want {want} (model largest {largest})", "nontrivial": True}
         model[k] = max(largest, want)
@@ -195,7 +198,10 @@ def make_machine(acc):
             k = (conn, MODEL_SPACE[space], srv)
             largest = self.model.get(k, -1)
             want = rfc_decode_pn(largest, truncated, 8 * nbytes)
-            got = _call(self.sessions[conn], space, srv, nbytes, truncated)
+            try:
+                got = _call(self.sessions[conn], space, srv, nbytes, truncated)
+            except Exception as e:  # noqa
+                raise AssertionError(f"history: packet-number reconstruction raises {type(e).__name__} | step {step}: {e} (largest {largest}, RFC gives {want})")
             assert got == want, f"history: wrong packet number | step {step}: got {got}, RFC gives {want} (largest {largest})"
             self.model[k] = max(largest, want)
             if want != ((largest + 1) & ~((1 << 8 * nbytes) - 1)) | truncated:
